@@ -276,6 +276,66 @@ enum Out {
     B(bool),
 }
 
+/// Approximate, name-keyed comparison (value, every first and second derivative) used where two different
+/// code paths of the library must agree up to rounding: relative 1e-9 of the larger magnitude, absolute 1e-12.
+fn close(x: f64, y: f64) -> bool {
+    if x.is_nan() || y.is_nan() {
+        return x.is_nan() && y.is_nan();
+    }
+    x == y || (x - y).abs() <= 1e-12 + 1e-9 * x.abs().max(y.abs())
+}
+
+fn num_close(a: &Number, b: &Number) -> bool {
+    match (a, b) {
+        (Number::F64(x), Number::F64(y)) => close(*x, *y),
+        (Number::Dual(x), Number::Dual(y)) => {
+            let mut names: Vec<String> = x.vars().iter().cloned().collect();
+            for n in y.vars().iter() {
+                if !names.contains(n) {
+                    names.push(n.clone());
+                }
+            }
+            close(x.real(), y.real()) && x.gradient1(names.clone()).iter().zip(y.gradient1(names).iter()).all(|(p, q)| close(*p, *q))
+        }
+        (Number::Dual2(x), Number::Dual2(y)) => {
+            let mut names: Vec<String> = x.vars().iter().cloned().collect();
+            for n in y.vars().iter() {
+                if !names.contains(n) {
+                    names.push(n.clone());
+                }
+            }
+            close(x.real(), y.real())
+                && x.gradient1(names.clone()).iter().zip(y.gradient1(names.clone()).iter()).all(|(p, q)| close(*p, *q))
+                && x.gradient2(names.clone()).iter().zip(y.gradient2(names).iter()).all(|(p, q)| close(*p, *q))
+        }
+        _ => false,
+    }
+}
+
+/// A float operand means the variable-free number of the other operand's kind: the same operator between
+/// two numbers of that kind (another code path than `f64 op Dual` / `Dual op f64`) must give the same
+/// value and the same derivatives of both orders.
+fn promoted_bop(op: BOp, a: &Number, b: &Number) -> Option<Number> {
+    macro_rules! same_kind {
+        ($x:expr, $y:expr, $wrap:expr) => {
+            match op {
+                BOp::Add => Some($wrap($x + $y)),
+                BOp::Sub => Some($wrap($x - $y)),
+                BOp::Mul => Some($wrap($x * $y)),
+                BOp::Div => Some($wrap($x / $y)),
+                _ => None,
+            }
+        };
+    }
+    match (a, b) {
+        (Number::F64(x), Number::Dual(y)) => same_kind!(&Dual::new(*x, vec![]), y, Number::Dual),
+        (Number::F64(x), Number::Dual2(y)) => same_kind!(&Dual2::new(*x, vec![]), y, Number::Dual2),
+        (Number::Dual(x), Number::F64(y)) => same_kind!(x, &Dual::new(*y, vec![]), Number::Dual),
+        (Number::Dual2(x), Number::F64(y)) => same_kind!(x, &Dual2::new(*y, vec![]), Number::Dual2),
+        _ => None,
+    }
+}
+
 fn out_same(a: &Out, b: &Out) -> bool {
     match (a, b) {
         (Out::N(x), Out::N(y)) => num_same(x, y),
@@ -413,6 +473,16 @@ fn check_number_table(ctx: &mut Ctx, rng: &mut Rng) {
                 let want = contained_bop(op, &a, &b);
                 match (got, want) {
                     (Caught::Ok(g), Some(w)) => {
+                        if let (Out::N(gn), Some(pn)) = (&g, match guarded(|| promoted_bop(op, &a, &b)) { Caught::Ok(v) => v, _ => None }) {
+                            ctx.asserted(1);
+                            ctx.class(&format!("promotion:{:?}:{}x{}", op, KIND[ka], KIND[kb]));
+                            if !num_close(gn, &pn) {
+                                ctx.violation(
+                                    &format!("C18|float-operand-vs-variable-free-number|{:?}|{}x{}", op, KIND[ka], KIND[kb]),
+                                    json!({"a": nj(&a), "b": nj(&b), "op": format!("{:?}", op), "ownership": own, "observed": nj(gn), "expected_with_float_as_variable_free_number": nj(&pn)}),
+                                );
+                            }
+                        }
                         if !out_same(&g, &w) {
                             ctx.violation(
                                 &format!("C18|number-op|{:?}|{}x{}", op, KIND[ka], KIND[kb]),
